@@ -12,10 +12,10 @@ T = {
  "C01": ("fault_enumeration", "generated forged/mutated datagram injection into a virtual-time world; snapshot-equality + delivery-ledger oracle; exhaustive bit flips / truncations of sampled genuine datagrams",
          "Every hostile datagram class of the property is generated (Hypothesis) and, for sampled genuine datagrams, every single-bit flip and truncation is enumerated, against real endpoints in drawn states; the oracle is state-snapshot equality plus an application delivery ledger.",
          "Trusts OpenSSL AES-GCM; state coverage is sampled (drawn histories), fault coverage per sampled datagram is complete.", "3/C01"),
- "C02": ("exploration", "generated active-attacker edits of the three handshake datagrams (byte-level and structured substitutions, schedules) with an independent 'genuinely signed payload' oracle",
+ "C02": ("exploration", "generated active-attacker edits of the three handshake datagrams (byte-level and structured substitutions, hostile challenges incl. congruent / foreign tokens, schedules), late hellos against established sessions, aftermath of refused hellos; independent 'genuinely signed payload' + proof-of-key oracle; exhaustive bit flips of the server hello",
          "Generated search over key pairs, byte/structured mutations and schedules of the handshake against real client and server endpoints.",
          "ECDSA/ECDH/HKDF primitives trusted; signatures are randomised inside OpenSSL (oracle keyed on payload).", "3/C02"),
- "C03": ("exploration", "generated send histories across 16-bit wraps in a virtual-time world; wire-tap oracle (nonce set, independent AES-GCM open with 20-byte AAD, cleartext scan)",
+ "C03": ("exploration", "generated send histories across 16-bit wraps (positioned and genuine 70k-215k datagram sessions), microsecond-polling applications, sends before / after the session; wire-tap oracle (nonce set, independent AES-GCM open with 20-byte AAD, cleartext scan, clear datagrams = one hello each)",
          "Generated histories incl. sequence wrap, keep-alives, retransmissions; every emitted datagram is checked by an independent parser/decryptor.",
          "Non-decreasing clock and the 1/60 s send cap (the property's preconditions); quick tier positions seq counters near the wrap (white-box write, declared).", "3/C03"),
  "C04": ("exploration", "generated duplication/reordering/replay schedules in a virtual-time world; delivery-ledger (at most once) and snapshot-diff (only dropped+1) oracles",
@@ -36,13 +36,13 @@ T = {
  "C09": ("exploration", "generated packets (full header ranges, 0..255 messages, both forms) round-tripped through the codec; generated send() sequences for every MTU with wire-tap size/packing/no-loss oracle",
          "Codec round trip over generated field combinations; packing decided on the wire for drawn MTUs and send bursts.",
          "Conservative reading of 'fit together' (the code's documented accounting).", "3/C09"),
- "C10": ("exploration", "stateful generation of multi-client histories (reconnects, handler exceptions, shutdown, drawable token collisions) against the real server loop in lock-step; lifecycle automaton oracle",
-         "Generated histories against the real UdpServerThread loop with a recording handler; a per-client automaton decides connect-once / messages / disconnect-once.",
+ "C10": ("exploration", "generated multi-client operation histories (Hypothesis lists: overlapping connects, reconnects, bursts, handler exceptions, kicks from handler events, shutdown, drawable token collisions) interpreted against the real server loop in lock-step; lifecycle automaton + accepted=>handled oracle",
+         "Generated histories against the real UdpServerThread loop with a recording handler; a per-client-object automaton decides connect-once / messages / disconnect-once; silence is judged on the harness's own record of when a client process stopped.",
          "The receive thread and loop thread are serialised (lock-step); races between them are not explored.", "3/C10"),
  "C11": ("exploration", "generated hostile datagram streams (random, structured, bulk hellos, spoofed) through the datagram entry point interleaved with honest echo traffic; liveness/service/byte-count/block-list oracle",
          "Generated attack streams against the real entry point and loop; oracle observes thread liveness, honest echo latency, per-address byte counters and pool snapshots.",
          "CPU/memory cost of handshakes is invisible in virtual time and not claimed.", "3/C11"),
- "C12": ("exploration", "generated configurations / setter orders / idle durations / cut instants in virtual time; emission-gap and timeout-window oracle",
+ "C12": ("exploration", "generated configurations / client and server setter orders / late interval changes / idle durations / cut instants (with stale copies arriving afterwards) in virtual time; emission-gap and timeout-window oracle computed from the wire tap",
          "Generated configurations with the property's precondition built in; hours of virtual idle time; oracle = gap windows on the wire tap and status-change instants.",
          "Client frame spacing <= server emission spacing (model soundness, see DESIGN 3/C05 S).", "3/C12"),
  "C13": ("exploration", "Hypothesis recursive value generation incl. width boundaries and user classes; type-strict normaliser round-trip + exact-consumption + concatenation oracle; out-of-domain refusal",
